@@ -14,7 +14,7 @@ ASSUME = [
     "model = coq/serde/Model/{Json,Serde,Config}.v (value layer: JSON documents as serde_json sees them); tie = K-serde evaluated inside Coq on every case: "
     "encode against serde_json::to_string and against the to_value+$schema file form, decode against serde_json::from_str on the same documents and on mutated documents (decoded values compared, not only accept/reject)",
     "the YAML *text* layer (scalar quoting of true/1e3/~/0x10/null, non-ASCII, block scalars) is NOT modelled: it is exercised by serde_yaml text round trips of every generated value (oracle, a test); level for the YAML half is partial",
-    "MODEL GAP (stated in Model/Serde.v, excluded from the generators): an integer literal in [2^63,2^64) at a DefaultValue position becomes Float(z as f64) in serde; the model rejects it",
+    "an integer literal in [2^63,2^64) at a DefaultValue position (serde: Float(z as f64)) is modelled, including Rust's shortest float rendering; JSON probes, YAML probes (tree as serde_yaml hands it to a visitor) and mutants with such literals are compared with the model on every run",
     "writer model = VV.M1 revision_fill (incl. default_as_fill, /repo 446c8b4) with every prompt answered by its default and optional user-supplied --fill-with values for non-enum columns (cross-checked here as K-fill); reader = validate_migration_plan. A user-chosen fill value for an enum column is outside the generators: revision writes it unchecked and the loader may answer InvalidEnumDefault (C12_revision_enum_fill_refuted)",
     "f64 values are carried as their Rust to_string() rendering; serde_json / serde_yaml text parsing and printing are trusted (DESIGN §8)",
 ]
